@@ -104,6 +104,8 @@ def ctor_kwargs(a, fx):
     for e in a.get("empty", []):          # present, with an empty value
         kw[e] = {"raw_graph": "", "rdflib_graph": rdflib.Graph(), "graph_list_of_files_input": [], "list_of_url_input": [],
                  "target_classes": [], "shape_map_raw": ""}[e]
+    for flag in a.get("flags", []):      # options that are no target specification and no source: they change nothing about validity
+        kw[flag] = True
     if a.get("inst"):         # an optional argument outside the seven sources: the instantiation triples come from a file of their own
         kw["instances_file_input"] = fx.graph_file("nt", a["comp"])       # (the compression mode applies to this file too)
     if a["allc"]:
@@ -222,6 +224,14 @@ def arg_vectors(tier, rnd):
         out.append({"id": "a%d" % i, "src": ss, "tgt": [], "allc": True, "comp": "none", "fmt": "nt", "ex": "none", "disableOr": True,
                     "redundantOr": False, "inst": True})
         i += 1
+    # boolean options of the constructor next to every subset of the target arguments: none of them is a target specification
+    for flag in ("shape_qualifiers_mode", "inverse_paths", "detect_minimal_iri", "disable_comments", "remove_empty_shapes", "disable_endpoint_cache"):
+        for r in range(len(TARGETS) + 1):
+            for ts in itertools.combinations(TARGETS, r):
+                for allc in (False, True):
+                    out.append({"id": "a%d" % i, "src": ["raw_graph"], "tgt": list(ts), "allc": allc, "comp": "none", "fmt": "nt", "ex": "none",
+                                "disableOr": True, "redundantOr": False, "flags": [flag]})
+                    i += 1
     for tgts, empties in ((["target_classes", "shape_map_raw"], ["target_classes"]), (["target_classes", "shape_map_raw"], ["shape_map_raw"]),
                           (["target_classes", "file_target_classes"], ["target_classes"]), (["shape_map_raw", "shape_map_file"], ["shape_map_raw"])):
         for allc in (False, True):
@@ -271,12 +281,12 @@ def check_c20(out, tier):
     for a, r_ in zip(vectors, results):
         if r_.get("status") == "harness-error":
             raise common.Machinery("harness error: %s\n%s" % (r_.get("exc"), r_.get("trace", "")))
-        traces.append({"id": a["id"], "kind": "ctor", "a": {k: a[k] for k in a if k not in ("id", "empty", "inst")}, "ctor": r_["ctor"], "call": r_["call"],
+        traces.append({"id": a["id"], "kind": "ctor", "a": {k: a[k] for k in a if k not in ("id", "empty", "inst", "flags")}, "ctor": r_["ctor"], "call": r_["call"],
                        "c": {k: calls[0][k] for k in calls[0] if k not in ("id", "history", "source")}, "outcome": ""})
     for c, r_ in zip(calls, cres):
         if r_.get("status") == "harness-error":
             raise common.Machinery("harness error: %s\n%s" % (r_.get("exc"), r_.get("trace", "")))
-        traces.append({"id": c["id"], "kind": "call", "a": {k: vectors[0][k] for k in vectors[0] if k not in ("id", "empty", "inst")}, "ctor": "", "call": "",
+        traces.append({"id": c["id"], "kind": "call", "a": {k: vectors[0][k] for k in vectors[0] if k not in ("id", "empty", "inst", "flags")}, "ctor": "", "call": "",
                        "c": {k: c[k] for k in c if k not in ("id", "history", "source")}, "outcome": r_["outcome"], "history": c["history"] + "/" + c["source"]})
     verdicts, stats = tlc.validate_batch("Trace_Config", "Trace_Config.cfg", traces, procs=12, chunk=None)
     out.traces += len(traces)
@@ -456,9 +466,21 @@ def base_dict(payload):
     return d
 
 
-def _ctor_kwargs(payload, nsdict, who="A"):
+def _graph_of(payload):
+    import rdflib
+    g = rdflib.Graph()
+    g.parse(data=payload["nt"], format="nt")
+    return g
+
+
+def _ctor_kwargs(payload, nsdict, who="A", graph=None):
     from shexer import consts as C
     kw = dict(raw_graph=payload["nt"], input_format=C.NT, all_classes_mode=True, instances_report_mode=C.MIXED_INSTANCES, namespaces_dict=nsdict)
+    if payload.get("rdflibShared"):      # the graph as an rdflib Graph object - the caller's own object, the same one for every Shaper
+        del kw["raw_graph"], kw["input_format"]
+        kw["rdflib_graph"] = graph if graph is not None else _graph_of(payload)
+    if who in payload.get("noDict", ""):  # this Shaper is given no namespaces of its own
+        kw["namespaces_dict"] = None
     if who in payload.get("turtle", ""):      # rdflib-parsed channel: the parser reports the prefixes bound in the document
         kw["raw_graph"] = TTL_PREFIXES + payload["nt"]
         kw["input_format"] = C.TURTLE
@@ -477,7 +499,8 @@ _FRESH = {}
 def _fresh(payload, c, who="A"):
     """what a brand-new Shaper (own pristine dictionary) returns for this call: the Fresh of spec/ShaperApi.tla"""
     from shexer.shaper import Shaper
-    key = (payload["gid"], payload.get("examples", False), who in payload.get("turtle", ""), payload.get("shapes_in_dict", False),
+    key = (payload["gid"], payload.get("rdflibShared", False), who in payload.get("noDict", ""),
+           payload.get("examples", False), who in payload.get("turtle", ""), payload.get("shapes_in_dict", False),
            payload.get("miniri", False), _profile_of(payload, who), c["kind"], c["fmt"], c["thr"])
     if key not in _FRESH:
         sh = Shaper(**_ctor_kwargs(payload, base_dict(payload), who))
@@ -498,10 +521,11 @@ def _run_sequence(payload):
     try:
         caller_ns = base_dict(payload)
         shapers = {}
+        shared_graph = _graph_of(payload) if payload.get("rdflibShared") else None
         for who, c in payload["seq"]:
             if who not in shapers:
                 nsd = caller_ns if payload.get("shared") else dict(caller_ns)
-                st, sh, exc, frame = runner.call_guarded(lambda: Shaper(**_ctor_kwargs(payload, nsd, who)), timeout=20)
+                st, sh, exc, frame = runner.call_guarded(lambda: Shaper(**_ctor_kwargs(payload, nsd, who, shared_graph)), timeout=20)
                 if st != "ok":
                     events.append(dict(c, shaper=who, status=False, sameAsFresh=False, fileSame=True, exc=exc, frame=frame))
                     continue
@@ -575,6 +599,13 @@ def sequences(tier, rnd):
         for sq in [(("A", 0), ("B", 0), ("A", 0)), (("A", 0), ("B", 6), ("A", 0)), (("B", 0), ("A", 0), ("B", 6), ("A", 6)), (("A", 1), ("B", 0), ("A", 1))]:
             out.append({"id": "s%d" % i, "gid": "small", "nt": nt, "seq": [(w, ALPHABET[j]) for w, j in sq], "shared": rnd.random() < .5,
                         "profiles": {"A": pa, "B": pb}})
+            i += 1
+    # two Shapers given the same rdflib Graph object, one with a namespaces dictionary and one without: the graph is an argument,
+    # what one Shaper does with it must not show in the other
+    for sq in [(("A", 0), ("B", 0)), (("B", 0), ("A", 0), ("B", 0)), (("A", 6), ("B", 0), ("A", 0)), (("A", 0), ("B", 6), ("B", 0)), (("A", 12), ("B", 0))]:
+        for nod in ("B", "A", ""):
+            out.append({"id": "s%d" % i, "gid": "small", "nt": nt, "seq": [(w, ALPHABET[j]) for w, j in sq], "shared": False,
+                        "rdflibShared": True, "noDict": nod})
             i += 1
     # thresholds a rounding error apart on one Shaper, in both orders and around other calls (ShaperApi!ThrHit)
     for sq in [(1, 13), (13, 1), (1, 13, 1), (13, 1, 13), (0, 13, 1), (1, 12, 13), (13, 7), (7, 13), (2, 13, 1)]:
